@@ -67,7 +67,8 @@ def tree_obligations(prefix, fam, defines, variant="dbg", weight_cap=120, max_ca
     return obls
 
 
-REC_FUNCS = ["cbor_decref", "cbor_copy", "cbor_serialize", "cbor_serialized_size", "_cbor_nested_describe", "_cbor_builder_append", "cbor_serialize_bytestring", "cbor_serialize_string", "tree_check", "ref_encode", "addr_collect"]
+# only functions that exist in every tree-layer binary (cbmc rejects an unwindset entry naming a function that is not in the goto model)
+REC_FUNCS = ["cbor_decref", "cbor_copy", "cbor_serialize", "cbor_serialized_size", "_cbor_nested_describe", "_cbor_builder_append", "cbor_serialize_bytestring", "cbor_serialize_string"]
 REC_LOOPS = ["cbor_decref.0", "cbor_decref.1", "cbor_decref.2", "cbor_decref.3", "cbor_copy.0", "cbor_copy.1", "cbor_copy.2", "cbor_copy.3",
              "cbor_serialized_size.0", "cbor_serialized_size.1", "cbor_serialized_size.2", "cbor_serialized_size.3", "cbor_serialize_map.0", "cbor_serialize_array.0",
              "cbor_serialize_string.0", "cbor_serialize_bytestring.0", "_cbor_nested_describe.0", "_cbor_nested_describe.1", "_cbor_nested_describe.2", "_cbor_nested_describe.3", "_cbor_nested_describe.4"]
